@@ -206,13 +206,19 @@ func runStorageProgram(e *storEnv, nOps int, p int) string {
 	withGarbage := p%6 == 5 && len(e.ids) <= 10
 	ver := 0
 	// every third program lets its write set grow before it commits (fault positions deep in a commit)
-	lazyCommit := p%3 == 1
+	// (not in programs with unencodable slabs: there the size of the write set after a failed
+	// order-relaxed commit depends on the schedule, and the generated history must not)
+	lazyCommit := p%3 == 1 && p%5 != 4
 	for e.step = 0; e.step < nOps; e.step++ {
 		id := e.ids[e.rng.Intn(len(e.ids))]
 		r := e.rng.Intn(100)
 		did := true
-		if lazyCommit && r >= 61 && r < 79 && int(e.ps.DeltasWithoutTempAddresses()) < 2+e.rng.Intn(len(e.ids)) && e.rng.Intn(4) != 0 {
-			r = e.rng.Intn(32) // a store or a removal instead of the commit
+		if lazyCommit && r >= 61 && r < 79 {
+			// (the draws do not depend on the storage's state: the history is a function of the seed)
+			want, keep, alt := 2+e.rng.Intn(len(e.ids)), e.rng.Intn(4) == 0, e.rng.Intn(32)
+			if int(e.ps.DeltasWithoutTempAddresses()) < want && !keep {
+				r = alt // a store or a removal instead of the commit
+			}
 		}
 		switch {
 		case r < 22:
@@ -568,10 +574,11 @@ func (e *storEnv) commit(sig *strings.Builder) {
 	if pendingOwned >= 5 {
 		pFault = 65
 	}
-	if e.rng.Intn(100) < pFault {
-		n := 1 + e.rng.Intn(2)
+	// (a fixed number of draws per commit, whatever the state)
+	roll, n, raw := e.rng.Intn(100), 1+e.rng.Intn(2), [2]int{e.rng.Intn(1 << 20), e.rng.Intn(1 << 20)}
+	if roll < pFault {
 		for i := 0; i < n; i++ {
-			f := e.rng.Intn(max(pendingOwned, 1))
+			f := raw[i] % max(pendingOwned, 1)
 			if !e.ledger.FailAt[f] {
 				e.ledger.FailAt[f] = true
 				faults = append(faults, f)
